@@ -1,6 +1,9 @@
 package share
 
-import "fmt"
+import (
+	"errors"
+	"fmt"
+)
 
 // parseCompactShares returns data (transactions or intermediate state roots
 // based on the contents of rawShares and supportedShareVersions. If rawShares
@@ -39,6 +42,11 @@ func parseRawData(rawData []byte) (units [][]byte, err error) {
 	units = make([][]byte, 0)
 	for {
 		actualData, unitLen, err := parseDelimiter(rawData)
+		// the rest of raw data contains only part of the length delimiter of
+		// the next transaction so we stop parsing raw data
+		if errors.Is(err, errIncompleteDelimiter) {
+			return units, nil
+		}
 		if err != nil {
 			return nil, err
 		}
